@@ -3,6 +3,39 @@
 // guards the trusted base of the harnesses that install these stubs.
 #[path = "/verif/harness/stdlite.rs"]
 mod stdlite;
+#[path = "/verif/harness/numlook.rs"]
+mod numlook;
+
+/// Extract the regular expression of `is_numeric_looking` from the repository's current source and
+/// compare the hand-written recogniser (the Kani stub) with it on every string up to 5 symbols.
+fn check_numlook() -> u64 {
+    let src = std::fs::read_to_string("/repo/src/ser_quoting.rs").expect("read ser_quoting.rs");
+    let a = src.find("Regex::new(").expect("Regex::new in ser_quoting.rs");
+    let rest = &src[a..];
+    let q = rest.find("r\"").expect("raw string") + 2;
+    let end = rest[q..].find("\",").expect("end of raw string");
+    let pattern = &rest[q..q + end];
+    let re = regex::Regex::new(pattern).expect("regex compiles");
+    let al: Vec<char> = "+-0179xobeE._aFg \n".chars().collect();
+    let mut n = 0u64;
+    let mut frontier = vec![String::new()];
+    let mut all = vec![String::new()];
+    for _ in 0..5 {
+        let mut next = Vec::new();
+        for s in &frontier { for &c in &al { let mut t = s.clone(); t.push(c); next.push(t); } }
+        all.extend(next.iter().cloned());
+        frontier = next;
+    }
+    for s in &all {
+        assert_eq!(re.is_match(s), numlook::numeric_looking(s), "numeric_looking model differs from the regex on {:?}", s);
+        n += 1;
+    }
+    for s in ["0x1F_ff", "0o777_", "0b1010_1", "123_456.7_8e+1_0", ".5e-3", "1e9", "+.5", "-0x", "0X1f", "1e", "1e+", "1._e1", "٣", "1\u{0663}"] {
+        assert_eq!(re.is_match(s), numlook::numeric_looking(s), "numeric_looking model differs from the regex on {:?}", s);
+        n += 1;
+    }
+    n
+}
 
 fn check_utf8(v: &[u8], n: &mut u64) {
     *n += 1;
@@ -18,6 +51,7 @@ fn check_utf8(v: &[u8], n: &mut u64) {
     }
     if let Ok(s) = core::str::from_utf8(v) {
         assert_eq!(s.chars().count(), stdlite::count_chars(s), "count_chars {:x?}", v);
+        assert_eq!(s.trim(), stdlite::trim_exact(s), "trim {:x?}", v);
     }
 }
 
@@ -47,6 +81,23 @@ fn main() {
             let mut v = vec![b'x'; k];
             v.extend_from_slice(tail);
             check_utf8(&v, &mut n);
+        }
+    }
+    // 3b. trim: every White_Space code point and its neighbours at both ends, and in the middle
+    for cp in 0u32..=0x3100 {
+        for d in [0i64, -1, 1] {
+            let c = match char::from_u32((cp as i64 + d).max(0) as u32) { Some(c) => c, None => continue };
+            assert_eq!(c.is_whitespace(), stdlite::is_white_space(c as u32), "is_white_space U+{:04X}", c as u32);
+            for t in [format!("{c}a{c}"), format!("{c}{c}"), format!("a{c}b"), format!(" {c}x{c} "), format!("{c}")] {
+                assert_eq!(t.trim(), stdlite::trim_exact(&t), "trim {:?}", t);
+                n += 1;
+            }
+        }
+    }
+    for cp in [0x10000u32, 0x1F30D, 0x10FFFF, 0xE000, 0xFEFF, 0xFFFD] {
+        let c = char::from_u32(cp).unwrap();
+        for t in [format!(" {c} "), format!("{c} "), format!("\u{3000}{c}\u{2028}")] {
+            assert_eq!(t.trim(), stdlite::trim_exact(&t), "trim {:?}", t);
         }
     }
     // 4. memchr / memrchr
@@ -83,5 +134,7 @@ fn main() {
             k += 1;
         }
     }
+    let nl = check_numlook();
+    println!("numeric_looking model == regex on {} strings", nl);
     println!("stdlite selftest ok: utf8/count_chars cases={} memchr cases={} contains cases={}", n, m, k);
 }
